@@ -1,2 +1,435 @@
-//! Harnesses for property C34 (see /verif/properties.jsonl).
+//! Harnesses for property C34 (see /verif/properties.jsonl): NTPv5 Bloom filter transfer.
+//!
+//! Code under test: `RemoteBloomFilter::{new,next_request,handle_response,full_filter}`,
+//! `ReferenceIdRequest::{new,decode,to_response}`, `BloomFilter::{add_id,contains_id,add,union}`.
+//! Oracles are written from the property text on raw byte arrays (hooks only build/read state).
 use crate::stubs;
+use ntp_proto::verif::packet::v5::extension_fields as efh;
+use ntp_proto::verif::packet::v5::server_reference_id as sh;
+use sh::{BloomFilter, NtpClientCookie, ReferenceIdRequest, ReferenceIdResponse, ResponseHandlingError, ServerId};
+
+const N: usize = 512;
+
+/// One `handle_response` call from an arbitrary pre-state satisfying the representation
+/// invariant (chunk size c valid, next_to_request a multiple of c below 512, an outstanding
+/// request always names next_to_request), with an arbitrary response (any cookie, any length
+/// 0..=516, any bytes). Byte-wise claims are checked at one arbitrary index `i` (= for all i).
+fn step(c: u16) {
+    // ---- all symbolic values up front
+    let client0: [u8; N] = kani::any();
+    let k: u16 = kani::any();
+    let filled: bool = kani::any();
+    let outstanding: bool = kani::any();
+    let exp_cookie: [u8; 8] = kani::any();
+    let cookie: [u8; 8] = kani::any();
+    let rbuf: [u8; N + 4] = kani::any();
+    let rlen: usize = kani::any();
+    let i: usize = kani::any();
+    kani::assume(k < 512 / c);
+    kani::assume(rlen <= N + 4);
+    kani::assume(i < N);
+    let next = k * c;
+    let last = if outstanding { Some((next, NtpClientCookie(exp_cookie))) } else { None };
+
+    let mut remote = sh::remote_from_raw(sh::bloom_from_bytes(client0), c, last, next, filled);
+    // `decode` is what the packet decoder uses: no validation of the length at all
+    let response = ReferenceIdResponse::decode(&rbuf[..rlen]);
+    let res = remote.handle_response(NtpClientCookie(cookie), &response);
+
+    // ---- oracle (property text)
+    let should_accept = outstanding && cookie == exp_cookie && rlen == c as usize;
+    assert!(res.is_ok() == should_accept, "accepted iff outstanding, same cookie, requested size");
+    match res {
+        Err(ResponseHandlingError::NotAwaitingResponse) => assert!(!outstanding, "error kind: nothing outstanding"),
+        Err(ResponseHandlingError::MismatchedCookie) => assert!(outstanding && cookie != exp_cookie, "error kind: cookie"),
+        Err(ResponseHandlingError::MismatchedLength) => assert!(outstanding && cookie == exp_cookie && rlen != c as usize, "error kind: length"),
+        Ok(()) => {}
+    }
+    let (f, c1, last1, next1, filled1) = sh::remote_raw(&remote);
+    let after_i = f.as_bytes()[i];
+    assert!(c1 == c, "chunk size never changes");
+    let off = next as usize;
+    let cs = c as usize;
+    if should_accept {
+        if i >= off && i < off + cs {
+            assert!(after_i == rbuf[i - off], "accepted chunk is stored at the requested offset");
+        } else {
+            assert!(after_i == client0[i], "bytes outside the chunk are untouched");
+        }
+        let want_next = ((next as u32 + c as u32) % 512) as u16;
+        assert!(next1 == want_next, "next chunk = offset + c modulo 512");
+        assert!(last1.is_none(), "request is no longer outstanding (a replay of the answer is refused)");
+        assert!(filled1 == (filled || want_next == 0), "filled exactly when the last chunk wrapped around");
+    } else {
+        assert!(after_i == client0[i], "refused answer leaves the filter untouched");
+        assert!(next1 == next && filled1 == filled, "refused answer leaves the cursor untouched");
+        assert!(last1.is_some() == outstanding, "refused answer leaves the outstanding request in place");
+        if let Some((o, ck)) = last1 {
+            assert!(o == next && ck.0 == exp_cookie, "outstanding request unchanged");
+        }
+    }
+    assert!(remote.full_filter().is_some() == filled1, "full_filter is Some iff filled");
+    if let Some(ff) = remote.full_filter() {
+        assert!(ff.as_bytes()[i] == after_i, "full_filter exposes the stored bytes");
+    }
+
+    kani::cover!(should_accept && !filled && filled1, "accepted last chunk: becomes filled");
+    kani::cover!(should_accept && !filled1 && i >= off && i < off + cs, "accepted chunk, not yet filled");
+    kani::cover!(outstanding && cookie != exp_cookie, "stale cookie refused");
+    kani::cover!(outstanding && cookie == exp_cookie && rlen + 4 == c as usize, "short chunk refused");
+    kani::cover!(outstanding && cookie == exp_cookie && rlen == c as usize + 4, "long chunk refused");
+    kani::cover!(!outstanding && cookie == exp_cookie && rlen == c as usize, "unsolicited answer refused");
+}
+
+macro_rules! step_harness {
+    ($name:ident, $c:expr) => {
+        #[kani::proof]
+        #[kani::unwind(520)]
+        fn $name() {
+            step($c);
+        }
+    };
+}
+step_harness!(c34_step_4, 4);
+step_harness!(c34_step_8, 8);
+step_harness!(c34_step_16, 16);
+step_harness!(c34_step_32, 32);
+step_harness!(c34_step_64, 64);
+step_harness!(c34_step_128, 128);
+step_harness!(c34_step_256, 256);
+step_harness!(c34_step_512, 512);
+
+/// Constructor: exactly the chunk sizes that are multiples of 4 dividing 512; initial state
+/// satisfies the representation invariant used by `step`.
+#[kani::proof]
+fn c34_new() {
+    let c: u16 = kani::any();
+    let r = sh::Remote::new(c);
+    let valid = c == 4 || c == 8 || c == 16 || c == 32 || c == 64 || c == 128 || c == 256 || c == 512;
+    assert!(r.is_some() == valid, "new accepts exactly 4,8,...,512");
+    if let Some(r) = r {
+        let (f, c1, last, next, filled) = sh::remote_raw(&r);
+        assert!(c1 == c && last.is_none() && next == 0 && !filled, "initial state");
+        assert!(r.full_filter().is_none(), "nothing to show initially");
+        assert!(f.as_bytes()[0] == 0 && f.as_bytes()[N - 1] == 0, "initially empty");
+    }
+    kani::cover!(valid, "valid chunk size");
+    kani::cover!(!valid && c % 4 == 0 && c < 512 && c != 0, "multiple of 4 not dividing 512");
+}
+
+/// Inductive step of the transfer invariant with the REAL request/answer pipeline:
+/// pre: not filled => filter[..next] == server[..next]; filled => filter == server.
+/// next_request -> (server) to_response -> handle_response keeps the invariant; the request
+/// names exactly (c, next); the moment `is_filled` becomes true the filter is the server's.
+/// (The pre-state is constructed: client byte i = server byte i where the invariant demands it,
+/// an arbitrary byte elsewhere; the post-condition is checked at an arbitrary index i.)
+fn step_inv(c: u16) {
+    let server: [u8; N] = kani::any();
+    let junk: [u8; N] = kani::any();
+    let k: u16 = kani::any();
+    let filled: bool = kani::any();
+    let stale: bool = kani::any();
+    let old_cookie: [u8; 8] = kani::any();
+    let cookie: [u8; 8] = kani::any();
+    let i: usize = kani::any();
+    kani::assume(k < 512 / c);
+    kani::assume(i < N);
+    let next = k * c;
+    let mut client0 = junk;
+    if filled {
+        client0 = server;
+    } else {
+        client0[..next as usize].copy_from_slice(&server[..next as usize]);
+    }
+    // an earlier request (for the same offset, see the invariant) may still be outstanding
+    let last = if stale { Some((next, NtpClientCookie(old_cookie))) } else { None };
+    let mut remote = sh::remote_from_raw(sh::bloom_from_bytes(client0), c, last, next, filled);
+    let server_filter = sh::bloom_from_bytes(server);
+
+    let req = remote.next_request(NtpClientCookie(cookie));
+    assert!(req.offset() == next && req.payload_len() == c, "request names the next chunk");
+    let resp = req.to_response(&server_filter);
+    assert!(resp.is_some(), "server can always answer a client request");
+    let resp = resp.unwrap();
+    let r = remote.handle_response(NtpClientCookie(cookie), &resp);
+    assert!(r.is_ok(), "the answer to the outstanding request is accepted");
+
+    let (f, _c1, _last1, next1, filled1) = sh::remote_raw(&remote);
+    assert!(next1 as u32 == (next as u32 + c as u32) % 512, "cursor advanced");
+    if filled1 || i < next1 as usize {
+        assert!(f.as_bytes()[i] == server[i], "transfer invariant preserved");
+    }
+    assert!(filled1 == (filled || next1 == 0), "filled only after wrapping");
+    match remote.full_filter() {
+        Some(ff) => {
+            assert!(filled1, "full_filter only when filled");
+            assert!(ff.as_bytes()[i] == server[i], "full filter is exactly the server's 512 bytes");
+        }
+        None => assert!(!filled1, "filled filter is exposed"),
+    }
+    kani::cover!(!filled && filled1, "transfer completes");
+    kani::cover!(!filled1, "transfer in progress");
+    kani::cover!(filled, "refresh round after completion");
+}
+
+macro_rules! step_inv_harness {
+    ($name:ident, $c:expr, $($tier:tt)*) => {
+        harness! {
+            #[kani::unwind(520)]
+            fn $name() {
+                step_inv($c);
+            }
+        }
+    };
+}
+step_inv_harness!(c34_inv_4, 4,);
+step_inv_harness!(c34_inv_8, 8,);
+step_inv_harness!(c34_inv_16, 16,);
+step_inv_harness!(c34_inv_32, 32,);
+step_inv_harness!(c34_inv_64, 64,);
+step_inv_harness!(c34_inv_128, 128,);
+step_inv_harness!(c34_inv_256, 256,);
+step_inv_harness!(c34_inv_512, 512,);
+
+/// Whole transfer from `new(c)`: 512/c rounds; before every genuine answer a stale or mismatched
+/// answer (arbitrary other cookie, or wrong length) is delivered and must be ignored.
+fn multi(c: u16) {
+    let server: [u8; N] = kani::any();
+    let cookies: [[u8; 8]; 4] = kani::any();
+    let bad_cookies: [[u8; 8]; 4] = kani::any();
+    let bad_len_sel: [bool; 4] = kani::any();
+    let junk: [u8; N] = kani::any();
+    let idx: usize = kani::any();
+    kani::assume(idx < N);
+    let rounds = (512 / c) as usize;
+    assert!(rounds <= 4);
+    let server_filter = sh::bloom_from_bytes(server);
+    let mut remote = sh::Remote::new(c).unwrap();
+    let mut r = 0;
+    while r < rounds {
+        assert!(remote.full_filter().is_none(), "not complete before all chunks arrived");
+        let req = remote.next_request(NtpClientCookie(cookies[r]));
+        // mismatched answer first
+        kani::assume(bad_cookies[r] != cookies[r]);
+        let c_us = c as usize;
+        let bad = if bad_len_sel[r] {
+            // right cookie, wrong size
+            let resp = ReferenceIdResponse::decode(&junk[..c_us - 4]);
+            remote.handle_response(NtpClientCookie(cookies[r]), &resp)
+        } else {
+            // right size, stale cookie
+            let resp = ReferenceIdResponse::decode(&junk[..c_us]);
+            remote.handle_response(NtpClientCookie(bad_cookies[r]), &resp)
+        };
+        assert!(bad.is_err(), "mismatched answer refused");
+        let resp = req.to_response(&server_filter).unwrap();
+        let ok = remote.handle_response(NtpClientCookie(cookies[r]), &resp);
+        assert!(ok.is_ok(), "genuine answer accepted after a refused one");
+        r += 1;
+    }
+    let full = remote.full_filter();
+    assert!(full.is_some(), "all chunk requests answered: complete");
+    let b = full.unwrap().as_bytes();
+    assert!(b[idx] == server[idx], "client holds exactly the server's filter (arbitrary index)");
+    kani::cover!(bad_len_sel[0] && !bad_len_sel[1], "both kinds of mismatched answers");
+    kani::cover!(server[0] == 0xA5 && server[N - 1] == 0x5A, "arbitrary server filter");
+}
+
+harness! {
+    #[kani::unwind(520)]
+    fn c34_multi_256() {
+        multi(256);
+    }
+}
+harness! {
+    #[kani::unwind(520)]
+    fn c34_multi_128() {
+        multi(128);
+    }
+}
+harness! {
+    #[kani::unwind(520)]
+    fn c34_multi_512() {
+        multi(512);
+    }
+}
+
+/// Server side: a chunk request decoded from the wire (any payload of 0..=520 bytes; the request's
+/// length is the payload length, its offset the first two payload bytes) or built from raw values is
+/// answered with exactly filter[offset..offset+len], or not at all when that range does not exist.
+#[kani::proof]
+#[kani::unwind(530)]
+fn c34_server() {
+    let filter: [u8; N] = kani::any();
+    let wire: [u8; 520] = kani::any();
+    let wlen: usize = kani::any();
+    let from_wire: bool = kani::any();
+    let raw_len: u16 = kani::any();
+    let raw_off: u16 = kani::any();
+    let idx: usize = kani::any();
+    kani::assume(wlen <= 520);
+    let bf = sh::bloom_from_bytes(filter);
+
+    let (req, len, off) = if from_wire {
+        match ReferenceIdRequest::decode(&wire[..wlen]) {
+            Ok(r) => {
+                assert!(wlen >= 2, "a request needs its offset field");
+                (r, wlen, u16::from_be_bytes([wire[0], wire[1]]) as usize)
+            }
+            Err(_) => {
+                assert!(wlen < 2, "only too short payloads are refused");
+                return;
+            }
+        }
+    } else {
+        (efh::refid_request_from_raw(raw_len, raw_off), raw_len as usize, raw_off as usize)
+    };
+    assert!(req.payload_len() as usize == len && req.offset() as usize == off, "request fields");
+    let resp = req.to_response(&bf);
+    let in_range = off + len <= N;
+    assert!(resp.is_some() == in_range, "answered iff the requested range lies inside the filter");
+    if let Some(r) = resp {
+        let b = r.bytes();
+        assert!(b.len() == len, "exactly the requested number of bytes");
+        if idx < len {
+            assert!(b[idx] == filter[off + idx], "exactly the requested bytes (arbitrary index)");
+        }
+        kani::cover!(len == 512 && off == 0, "whole filter in one chunk");
+        kani::cover!(len == 3 && off == 509, "odd sized tail chunk");
+        kani::cover!(len == 0, "empty chunk");
+    }
+    kani::cover!(from_wire && off + len > N, "out of range request from the wire");
+    kani::cover!(!from_wire && off == 512 && len == 4, "just past the end");
+}
+
+/// `ReferenceIdRequest::new` (used by the client): Some iff len % 4 == 0 and offset+len <= 512.
+/// The sum is computed in u16 by the code: inputs whose sum exceeds u16::MAX are outside this
+/// harness (dev profile: overflow panic; see c34_req_new_kf_u16_wrap for the release behaviour).
+#[kani::proof]
+fn c34_req_new() {
+    let len: u16 = kani::any();
+    let off: u16 = kani::any();
+    kani::assume(len as u32 + off as u32 <= u16::MAX as u32);
+    let r = ReferenceIdRequest::new(len, off);
+    let want = len % 4 == 0 && len as u32 + off as u32 <= 512;
+    assert!(r.is_some() == want, "request constructor validates alignment and range");
+    if let Some(r) = r {
+        assert!(r.payload_len() == len && r.offset() == off);
+    }
+    kani::cover!(want && len == 512, "largest request");
+    kani::cover!(!want && len % 4 == 0, "range refused");
+}
+
+/// Expected to FAIL on the unchanged tree (candidate finding): for len+offset > 65535 the u16 sum
+/// wraps in release builds (panics in dev builds) and an out-of-range request is constructed.
+#[kani::proof]
+fn c34_req_new_kf_u16_wrap() {
+    let len: u16 = kani::any();
+    let off: u16 = kani::any();
+    kani::assume(len as u32 + off as u32 > u16::MAX as u32);
+    let r = ReferenceIdRequest::new(len, off);
+    assert!(r.is_none(), "a request beyond the 512-byte filter is never constructed");
+}
+
+/// No false negatives: after add_id(id) the filter contains id, also after merging arbitrary
+/// other filters (add / union); add_id sets exactly the ten addressed bits; contains_id is
+/// exactly "all ten addressed bits are set".
+#[kani::proof]
+#[kani::unwind(520)]
+fn c34_member() {
+    let f0: [u8; N] = kani::any();
+    let other: [u8; N] = kani::any();
+    let id_raw: [u16; 10] = kani::any();
+    let probe_raw: [u16; 10] = kani::any();
+    let idx: usize = kani::any();
+    kani::assume(idx < N);
+    let mut j = 0;
+    while j < 10 {
+        kani::assume(id_raw[j] < 4096 && probe_raw[j] < 4096);
+        j += 1;
+    }
+    let id = sh::server_id_from_raw(id_raw);
+    let probe = sh::server_id_from_raw(probe_raw);
+    let mut f = sh::bloom_from_bytes(f0);
+
+    // contains_id == all addressed bits set (definition of Bloom membership)
+    let mut all = true;
+    let mut j = 0;
+    while j < 10 {
+        let bit = probe_raw[j] as usize;
+        if (f0[bit / 8] >> (bit % 8)) & 1 == 0 {
+            all = false;
+        }
+        j += 1;
+    }
+    assert!(f.contains_id(&probe) == all, "membership test reads exactly the ten addressed bits");
+
+    f.add_id(&id);
+    assert!(f.contains_id(&id), "no false negative right after insertion");
+    // exactly the addressed bits were set
+    let after: [u8; N] = *f.as_bytes();
+    let mut want = f0;
+    let mut j = 0;
+    while j < 10 {
+        let bit = id_raw[j] as usize;
+        want[bit / 8] |= 1u8 << (bit % 8);
+        j += 1;
+    }
+    assert!(after[idx] == want[idx], "add_id sets the ten addressed bits and nothing else (arbitrary index)");
+
+    // merging other filters never removes a member
+    let o = sh::bloom_from_bytes(other);
+    f.add(&o);
+    assert!(f.contains_id(&id), "no false negative after add(other)");
+    let merged: [u8; N] = *f.as_bytes();
+    assert!(merged[idx] == (after[idx] | other[idx]), "add is the bytewise union (arbitrary index)");
+    let fs = [sh::bloom_from_bytes(after), o];
+    let u = BloomFilter::union(fs.iter());
+    assert!(u.contains_id(&id), "no false negative in a union");
+    assert!(u == f, "union == repeated add");
+    // a previously contained id stays contained as well
+    if all {
+        assert!(f.contains_id(&probe), "older members survive insertions and merges");
+    }
+    kani::cover!(all, "probe already present");
+    kani::cover!(!all, "probe absent");
+    kani::cover!(id_raw[0] == 4095 && id_raw[9] == 0, "extreme bit positions");
+}
+
+/// Empty filter has no members; a fresh filter with one id contains another id iff every bit of
+/// the other id is one of the first id's bits.
+#[kani::proof]
+#[kani::unwind(520)]
+fn c34_member_empty() {
+    let id_raw: [u16; 10] = kani::any();
+    let probe_raw: [u16; 10] = kani::any();
+    let mut j = 0;
+    while j < 10 {
+        kani::assume(id_raw[j] < 4096 && probe_raw[j] < 4096);
+        j += 1;
+    }
+    let id = sh::server_id_from_raw(id_raw);
+    let probe = sh::server_id_from_raw(probe_raw);
+    let mut f = BloomFilter::new();
+    assert!(!f.contains_id(&probe), "empty filter has no members");
+    f.add_id(&id);
+    let mut subset = true;
+    let mut j = 0;
+    while j < 10 {
+        let mut found = false;
+        let mut l = 0;
+        while l < 10 {
+            if id_raw[l] == probe_raw[j] {
+                found = true;
+            }
+            l += 1;
+        }
+        if !found {
+            subset = false;
+        }
+        j += 1;
+    }
+    assert!(f.contains_id(&probe) == subset, "single-id filter: member iff bits are a subset");
+    kani::cover!(subset, "same bit set");
+    kani::cover!(!subset, "different id not reported");
+}
